@@ -1,12 +1,13 @@
 SPECIFICATION Spec
 CONSTANTS
   MaxRecs = 2
-  Strs = {1, 2, 3, 4, 5, 6, 7, 8}
+  Strs = {1, 2, 3, 4, 5, 6, 7, 8, 11, 12, 13, 14, 15}
   HdrStrs = {4}
   CutStrs = {3}
   CutRecs = 1
   PreKinds = {"none", "base"}
   Layouts = {"gaps", "canon"}
+  LongStrs = {11, 12, 13, 14, 15}
   MultiPre = {"base"}
   MultiLayouts = {"gaps"}
   MultiStrs = {3, 4, 7}
